@@ -141,7 +141,11 @@ impl Driver for C01 {
         let eps = eps9();
         for case in 0..25 {
             let stratum = stratum_for(&mut rng);
-            let m = gen_model(&mut rng, stratum);
+            let mut m = gen_model(&mut rng, stratum);
+            if rng.gen_bool(0.12) {
+                // bounds that come out an ulp beside an integer or beside a declared bound
+                let _ = crate::props::c07::add_inexact_row(&mut m, &mut rng);
+            }
             let mut prng = unit_rng(ctx, "C01p", out.unit * 1000 + case);
             if let Some(o) = only {
                 if o != case {
@@ -407,6 +411,9 @@ impl Driver for C02 {
                 let mut g = G { rng: &mut rng, types: m.types.clone(), stratum, budget: 12 };
                 m.obj = g.arith(2);
             }
+            if rng.gen_bool(0.05) {
+                let _ = crate::props::c07::add_inexact_row(&mut m, &mut rng);
+            }
             let mut prng = unit_rng(ctx, "C02p", out.unit * 1000 + case);
             if let Some(o) = only {
                 if o != case {
@@ -436,8 +443,10 @@ impl Driver for C02 {
                             }
                             // the rows were relaxed by 1e-9 of their largest term: at a far-away point
                             // (+-1e7 in an unbounded direction) that is an absolute slack of 1e-2
+                            // (each row of a chain $min_0 <= $min_1 - v, $min_1 <= v adds its own slack)
+                            let chain = qi(xl.rows.len().max(1) as i64);
                             for x in p.iter() {
-                                scale = qmax(&scale, &(x.abs() * pow10_neg(3)));
+                                scale = qmax(&scale, &(x.abs() * pow10_neg(3) * &chain));
                             }
                             if close(&best, &want, &scale) {
                                 out.tag("objective-agrees");
